@@ -100,6 +100,11 @@ def _container(E, cfg):
     nf = len(dims)
     E.scope()
     meshes, fs = _fields(E, dims)
+    if cfg.get("layout") == "F":
+        # value tables handed in by the user keep their memory order (Field.__init__ stores the array as it is):
+        # column-major tables (np.asfortranarray, np.vstack([ux, uy]).T) denote the same (point, component) entries
+        for f_ in fs:
+            f_.values = E.fortran(f_.values)
     cont = F.container(E, fs)
     off, tot = F.spec_offsets(fs)
     ns = [m.npoints for m in meshes]
@@ -150,7 +155,7 @@ def _container(E, cfg):
     E.check("link/one-to-one", all(a.values is b.values for a, b in zip(cont.fields, other.fields)), "link(other) shares the value arrays field by field")
 
 
-CONT = [dict(dims=d) for d in [(3,), (1,), (2, 1), (3, 1, 1), (2, 1, 1), (1, 3), (1, 2, 3)]]
+CONT = [dict(dims=d) for d in [(3,), (1,), (2, 1), (3, 1, 1), (2, 1, 1), (1, 3), (1, 2, 3)]] + [dict(dims=d, layout="F") for d in [(3,), (2, 1)]]
 
 
 @contract("C08", "container", configs=CONT, engine="E3")
